@@ -2295,7 +2295,10 @@ class Side:
         buffer.write(f'{ind}\t\t"10" "{" ".join(map(str, self.disp_allowed_vert))}"\n')
         buffer.write(f'{ind}\t\t}}\n')
 
-        if disp_multiblend and any(vert.multi_blend for vert in self._disp_verts):
+        if disp_multiblend and any(
+            vert.multi_blend or vert.multi_alpha or vert.multi_colors is not None
+            for vert in self._disp_verts
+        ):
             self._export_disp_rowset('multiblend', 'multi_blend', buffer, ind, size)
             self._export_disp_rowset('alphablend', 'multi_alpha', buffer, ind, size)
             for i in range(4):
